@@ -210,8 +210,22 @@ impl SignatureConverter<'_> {
             }
         }
 
+        // The trait of an impl block is written by hand: its methods have the generics of the fns
+        let keeps_generics = matches!(
+            self.impl_receiver_kind,
+            ImplReceiverKind::StaticImpl | ImplReceiverKind::DynamicImpl
+        );
+
         for param in params.into_iter() {
             match param {
+                syn::GenericParam::Type(type_param) if keeps_generics => {
+                    if deps_ident != Some(&type_param.ident) {
+                        generics.params.push(syn::GenericParam::Type(type_param));
+                    }
+                }
+                syn::GenericParam::Const(_) if keeps_generics => {
+                    generics.params.push(param);
+                }
                 // type and const parameters are parameters of the trait
                 syn::GenericParam::Type(type_param) => {
                     if deps_ident == Some(&type_param.ident) {
